@@ -92,7 +92,7 @@ func cmdReplay(args []string) {
 			if s == "refl" && !gq.ReflSuitable(&u, c) {
 				continue
 			}
-			if (c.Fam == "abstract" || c.Fam == "defectabs") && s != "refl" {
+			if reflOnly(c.Fam) && s != "refl" {
 				continue // abstract types need Go type bindings: reflection only (documented limitation)
 			}
 			if gq.HasNthFault(c) { // accessor failures exist only behind AnyResolver.Len/Nth
@@ -139,6 +139,11 @@ func cmdReplay(args []string) {
 	rep.Emit()
 }
 
+// reflOnly: families about interface / union typed fields need Go type bindings (documented limitation of the other strategies).
+func reflOnly(fam string) bool {
+	return fam == "abstract" || fam == "defectabs" || fam == "absops"
+}
+
 // sharedParse: the cases TLC enumerates for one document differ in operation, variables and injected
 // failures.  They are resolved here, forwards and then backwards, on ONE parsed Executable per document
 // and strategy: each response must still be the one Sem prescribes for that case alone (what a call
@@ -148,7 +153,7 @@ func sharedParse(u *gq.Universe, cases []gq.Case, worlds map[string]*gq.World, s
 	var order []string
 	for i := range cases {
 		c := &cases[i]
-		if c.Mix != nil || gq.HasNthFault(c) || c.Fam == "abstract" || c.Fam == "defectabs" {
+		if c.Mix != nil || gq.HasNthFault(c) {
 			continue
 		}
 		k := c.Doc.Text(gq.Layouts[0])
@@ -170,6 +175,9 @@ func sharedParse(u *gq.Universe, cases []gq.Case, worlds map[string]*gq.World, s
 			suitable := true
 			for _, i := range idx {
 				if s == "refl" && !gq.ReflSuitable(u, &cases[i]) {
+					suitable = false
+				}
+				if s != "refl" && reflOnly(cases[i].Fam) {
 					suitable = false
 				}
 			}
@@ -716,7 +724,7 @@ func cmdEnvelope(args []string) {
 			continue
 		}
 		c := &cases[i]
-		if c.Mix != nil || gq.HasNthFault(c) || c.Fam == "abstract" || c.Fam == "defectabs" {
+		if c.Mix != nil || gq.HasNthFault(c) || reflOnly(c.Fam) {
 			continue
 		}
 		for li, lo := range gq.Layouts {
